@@ -83,7 +83,7 @@ class O2JMap(Map[O2JNoteList, O2JHitList, O2JHoldList, O2JBpmList]):
             """Moves the sweep to this tempo event, which starts a new segment"""
             nonlocal offset, measure, bpm_val
             offset += RAConst.min_to_msec((bpm_.measure - measure) * 4 / bpm_val)
-            bpm_.offset = offset
+            bpm_.offset = float(offset)
             measure = bpm_.measure
             bpm_val = bpm_.bpm
 
@@ -104,9 +104,13 @@ class O2JMap(Map[O2JNoteList, O2JHitList, O2JHoldList, O2JBpmList]):
 
         # We then assign all the offsets here
         for note in notes:
-            note.offset = note_measure_dict[note.measure]
+            # Plain floats: the item setter casts numpy values to the dtype of
+            # the placeholder (int), which would truncate the milliseconds.
+            note.offset = float(note_measure_dict[note.measure])
             if isinstance(note, O2JHold):  # Special case for LN.
-                note.length = note_measure_dict[note.tail_measure] - note.offset
+                note.length = float(
+                    note_measure_dict[note.tail_measure] - note.offset
+                )
 
         # We add the missing first BPM here
         bpms.insert(0, O2JBpm(offset=0, bpm=init_bpm))
